@@ -13,7 +13,7 @@ use write_fonts::tables::gpos as w;
 use write_fonts::tables::layout as wl;
 use write_fonts::types::GlyphId16;
 
-#[derive(Clone, Debug)]
+#[derive(Clone, Debug, Default)]
 pub struct Case {
     /// 0 = PairPos format 1, 1 = PairPos format 2, 2 = MarkBasePos
     pub kind: u8,
@@ -21,7 +21,9 @@ pub struct Case {
     pub k: u32,
     /// pair1: second glyphs per first; pair2: class2 count; markbase: bases
     pub m: u32,
-    /// value/anchor style: 0 plain, 1 two-field records, 2 device tables, 3 variation indices
+    /// value/anchor style: 0 plain, 1 two-field records, 2 device tables, 3 variation indices,
+    /// 4 (PairPos2) Device in record 1 and VariationIndex in record 2, 5 device-slot patterns
+    /// (module `slots`; the fields s1 .. pieces below describe the pattern)
     pub fmt: u8,
     /// first-glyph coverage style: 0 contiguous (format 2, one range), 1 every other glyph
     /// (format 1), 2 runs of five with gaps (format 2, many ranges)
@@ -31,21 +33,38 @@ pub struct Case {
     /// bit i set: lookup i is AUTHORED as an extension lookup (`PositionLookup::Extension`); such a
     /// lookup is not split by the packer (too large => PackingFailed is the acceptable answer)
     pub ext: u8,
+    /// fmt 5: device-slot mask of value record 1 (bit 0 xPlaDevice, 1 yPlaDevice, 2 xAdvDevice,
+    /// 3 yAdvDevice); MarkBasePos: of the mark anchors (bit 0 xDevice, 1 yDevice)
+    pub s1: u8,
+    /// fmt 5: the same for value record 2 / the base anchors
+    pub s2: u8,
+    /// fmt 5: device kind: 0 Device, 1 VariationIndex, 2 alternating by (record + slot), 3 reversed
+    pub dk: u8,
+    /// fmt 5: 0 = each rule carries a sub-mask of the format mask (cycling through all subsets, so
+    /// null offsets occur between non-null ones), 1 = each rule fills every slot of the format
+    pub fill: u8,
+    /// fmt 5: 0 = device content unique per rule, p = content index mod p (shared device tables)
+    pub pool: u32,
+    /// fmt 5: number of sub-tables the size was chosen for (1 = below the split threshold)
+    pub pieces: u8,
 }
 
 impl Case {
     pub fn to_json(&self) -> Value {
-        json!({"family":"public","kind":self.kind,"k":self.k,"m":self.m,"fmt":self.fmt,"cov":self.cov,"lookups":self.lookups,"ext":self.ext})
+        json!({"family":"public","kind":self.kind,"k":self.k,"m":self.m,"fmt":self.fmt,"cov":self.cov,"lookups":self.lookups,"ext":self.ext,
+               "s1":self.s1,"s2":self.s2,"dk":self.dk,"fill":self.fill,"pool":self.pool,"pieces":self.pieces})
     }
     pub fn from_json(v: &Value) -> Case {
         let g = |k: &str| v[k].as_u64().unwrap_or(0);
-        Case { kind: g("kind") as u8, k: g("k") as u32, m: g("m") as u32, fmt: g("fmt") as u8, cov: g("cov") as u8, lookups: g("lookups") as u8, ext: g("ext") as u8 }
+        Case { kind: g("kind") as u8, k: g("k") as u32, m: g("m") as u32, fmt: g("fmt") as u8, cov: g("cov") as u8, lookups: g("lookups") as u8, ext: g("ext") as u8,
+               s1: g("s1") as u8, s2: g("s2") as u8, dk: g("dk") as u8, fill: g("fill") as u8, pool: g("pool") as u32, pieces: g("pieces") as u8 }
     }
     fn class(&self) -> String {
         format!(
-            "{} fmt={} cov={} lookups={} authored-extension={}",
+            "{} fmt={}{} cov={} lookups={} authored-extension={}",
             ["PairPos1", "PairPos2", "MarkBasePos"][self.kind as usize],
             self.fmt,
+            if self.fmt == 5 { format!(" {}", crate::slots::class(self)) } else { String::new() },
             self.cov,
             self.lookups,
             match self.ext.count_ones() {
@@ -101,6 +120,9 @@ fn expected_device((start, vals): (u16, [i8; 3])) -> Dev {
 
 
 fn pair_values(c: &Case, lookup: u32, i: u32, j: u32) -> (Val, Val, w::ValueRecord, w::ValueRecord) {
+    if c.fmt == 5 {
+        return crate::slots::pair_values(c, lookup, i, j);
+    }
     let adv = ((lookup * 31 + i * 7 + j) % 30000) as i16 + 1;
     let mut e1 = Val::default();
     let mut e2 = Val::default();
@@ -262,7 +284,11 @@ pub fn build(c: &Case) -> (w::Gpos, Vec<Expect>) {
                 let mut ebases = HashMap::new();
                 let mut mrecs = vec![];
                 for i in 0..c.k {
-                    let (ea, wa) = anchor(c, i as i16 + 1, -(i as i16) - 1, i + 1);
+                    let (ea, wa) = if c.fmt == 5 {
+                        crate::slots::anchor(c, l, false, i as i16 + 1, -(i as i16) - 1, i)
+                    } else {
+                        anchor(c, i as i16 + 1, -(i as i16) - 1, i + 1)
+                    };
                     emarks.insert(marks[i as usize], (i as u16, ea));
                     mrecs.push(w::MarkRecord::new(i as u16, wa));
                 }
@@ -276,7 +302,11 @@ pub fn build(c: &Case) -> (w::Gpos, Vec<Expect>) {
                             erow.push(None);
                             wrow.push(None);
                         } else {
-                            let (ea, wa) = anchor(c, (n % 30011) as i16, (l * 1000 + j) as i16, n + 2);
+                            let (ea, wa) = if c.fmt == 5 {
+                                crate::slots::anchor(c, l, true, (n % 30011) as i16, (l * 1000 + j) as i16, n)
+                            } else {
+                                anchor(c, (n % 30011) as i16, (l * 1000 + j) as i16, n + 2)
+                            };
                             erow.push(Some(ea));
                             wrow.push(Some(wa));
                         }
@@ -361,7 +391,13 @@ pub fn check(c: &Case) -> Result<Outcome, (String, String)> {
                             (None, Some(_)) => false,
                         };
                         if !ok {
-                            return e("pair-value-differs", format!("lookup {li} pair ({g1},{g2}): decoded {got:?}, input {want:?}"));
+                            // fmt 5: the clause names the first (record, slot) that differs
+                            let class = if c.fmt == 5 {
+                                format!("pair-value-differs [{}]", crate::slots::describe_pair_diff(&got, want))
+                            } else {
+                                "pair-value-differs".to_string()
+                            };
+                            return e(&class, format!("lookup {li} pair ({g1},{g2}): decoded {got:?}, input {want:?}"));
                         }
                     }
                 }
@@ -376,7 +412,12 @@ pub fn check(c: &Case) -> Result<Outcome, (String, String)> {
                             _ => None,
                         };
                         if got != want {
-                            return e("mark-base-anchors-differ", format!("lookup {li} (mark {m}, base {b}): decoded {got:?}, input {want:?}"));
+                            let class = if c.fmt == 5 {
+                                format!("mark-base-anchors-differ [{}]", crate::slots::describe_anchor_diff(&got, &want))
+                            } else {
+                                "mark-base-anchors-differ".to_string()
+                            };
+                            return e(&class, format!("lookup {li} (mark {m}, base {b}): decoded {got:?}, input {want:?}"));
                         }
                     }
                 }
@@ -455,7 +496,7 @@ pub fn cases(tier: Tier) -> Vec<Case> {
                     if lookups == 3 && k > 130 {
                         continue;
                     }
-                    out.push(Case { kind: 0, k, m: 273, fmt, cov, lookups, ext: 0 });
+                    out.push(Case { kind: 0, k, m: 273, fmt, cov, lookups, ext: 0, ..Default::default() });
                 }
             }
         }
@@ -478,7 +519,7 @@ pub fn cases(tier: Tier) -> Vec<Case> {
                     if lookups == 2 && k > 400 {
                         continue;
                     }
-                    out.push(Case { kind: 1, k, m: 51, fmt, cov, lookups, ext: 0 });
+                    out.push(Case { kind: 1, k, m: 51, fmt, cov, lookups, ext: 0, ..Default::default() });
                 }
             }
         }
@@ -500,7 +541,7 @@ pub fn cases(tier: Tier) -> Vec<Case> {
                     if lookups == 2 && (quick && k != 150 || k > 200) {
                         continue;
                     }
-                    out.push(Case { kind: 2, k, m, fmt, cov, lookups, ext: 0 });
+                    out.push(Case { kind: 2, k, m, fmt, cov, lookups, ext: 0, ..Default::default() });
                 }
             }
         }
@@ -523,17 +564,28 @@ pub fn cases(tier: Tier) -> Vec<Case> {
             out.push(c2);
         }
     }
+    // device-slot patterns (fmt 5), see module `slots`
+    out.extend(crate::slots::cases(tier));
     out
 }
 
 pub fn run_all(run: &Run) {
-    let cs = cases(run.tier);
+    let mut cs = cases(run.tier);
+    if std::env::var("C05_ONLY").as_deref() == Ok("slots") {
+        cs.retain(|c| c.fmt == 5); // development aid (main.rs reports the cap)
+    }
     run.bound("public_path_cases", json!({
         "count": cs.len(),
         "PairPos1": "k first glyphs x 273 seconds; k sweeps around 1x/2x/3x 64 KiB; 4 value styles (xAdv | +yPla/xPla2 | +Device | +VariationIndex) x 3 coverage styles x {1,3} lookups",
         "PairPos2": "k class1 x 51 class2 classes; same value styles plus one where record 1 has a Device and record 2 a VariationIndex in every cell; coverage {contiguous, runs with gaps}; {1,2} lookups",
         "MarkBasePos": "k marks (one class each) x m bases, every 17th base anchor null; anchor formats 1/2/3 (Device, VariationIndex); {1,2} lookups",
+        "device_slots": if run.tier == Tier::Quick {
+            "value style 5: PairPos2 (51 class2) and PairPos1 (16 seconds): all 15 non-empty subsets of {xPla,yPla,xAdv,yAdv}Device as the format mask of record 1 only / record 2 only / both (record 2 = subset rotated by one slot) x device kind {Device, VariationIndex; both-records also alternating by slot}; every rule carries a sub-mask cycling through all subsets of the format mask (null offsets between non-null ones), content unique per (record, slot, rule); PairPos2 sized for 1 and 2 (both-records: also 3) sub-tables, PairPos1 for 2; MarkBasePos (24 bases): all 15 (mark anchor mask, base anchor mask) over {xDevice,yDevice} but (none,none) x 4 device kinds x sized for 1 and 2 sub-tables; k derived from the authored byte size (38 000 / 76 000 / 142 000 bytes)"
+        } else {
+            "value style 5: PairPos2 and PairPos1: all 255 (record 1 mask, record 2 mask) pairs over the 4 device slots x 4 device kinds {Device, VariationIndex, alternating, reversed} x sized for 1, 2 (PairPos2: and 3) sub-tables, plus per mask pair and kind: every slot filled, content pooled mod 7 (shared device tables), gapped coverage (kinds 0/1), two lookups (alternating kind, quick's mask pairs); MarkBasePos: 15 mask pairs x 4 kinds x {1,2,3} sub-tables x {sub-mask cycle, every slot filled}, plus pooled mod 5, every-other-glyph coverage, two lookups"
+        },
     }));
+    run.count("public_device_slot_cases", cs.iter().filter(|c| c.fmt == 5).count() as u64);
     let results: Vec<(usize, Option<Outcome>, f64)> = cs
         .par_iter()
         .enumerate()
@@ -544,6 +596,21 @@ pub fn run_all(run: &Run) {
         })
         .collect();
     if std::env::var("C05_TIMES").is_ok() {
+        // development aid: cost and piece counts of the device-slot family
+        let mut hist: std::collections::BTreeMap<(u8, u8, usize, bool), (u32, f64)> = Default::default();
+        for (i, o, t) in &results {
+            if cs[*i].fmt == 5 {
+                let (n, r) = o.as_ref().map(|o| (o.subtables.iter().copied().max().unwrap_or(0), o.refused)).unwrap_or((99, false));
+                let e = hist.entry((cs[*i].kind, cs[*i].pieces, n, r)).or_default();
+                e.0 += 1;
+                e.1 += t;
+            }
+        }
+        for (k, v) in &hist {
+            println!("    slots kind={} pieces={} subtables={} refused={}: {} cases {:.1}s", k.0, k.1, k.2, k.3, v.0, v.1);
+        }
+        let old: f64 = results.iter().filter(|r| cs[r.0].fmt != 5).map(|r| r.2).sum();
+        println!("    non-slot cases total {:.1}s", old);
         let mut t: Vec<(f64, usize)> = results.iter().map(|r| (r.2, r.0)).collect();
         t.sort_by(|a, b| b.0.partial_cmp(&a.0).unwrap());
         for (s, i) in t.iter().take(25) {
@@ -555,11 +622,19 @@ pub fn run_all(run: &Run) {
     let mut all = HashSet::new();
     let mut nontrivial = HashSet::new();
     let mut refused = vec![];
+    let mut slot_want_split = [0u64; 3];
+    let mut slot_got_split = [0u64; 3];
     for (i, o) in &results {
         run.eval();
         run.trans(2);
         let Some(o) = o else { continue };
         run.count("public_cases_checked", 1);
+        if cs[*i].fmt == 5 && cs[*i].pieces >= 2 {
+            slot_want_split[cs[*i].kind as usize] += 1;
+            if o.subtables.iter().any(|n| *n > 1) {
+                slot_got_split[cs[*i].kind as usize] += 1;
+            }
+        }
         if o.refused {
             run.count("public_refused(PackingFailed)", 1);
             refused.push(cs[*i].to_json());
@@ -581,6 +656,12 @@ pub fn run_all(run: &Run) {
         h.str("public");
         h.u64(cs[*i].kind as u64);
         h.u64(cs[*i].fmt as u64);
+        if cs[*i].fmt == 5 {
+            // device-slot family: a different slot pattern / device kind is a different outcome
+            for v in [cs[*i].s1, cs[*i].s2, cs[*i].dk, cs[*i].fill, (cs[*i].pool != 0) as u8] {
+                h.u64(v as u64);
+            }
+        }
         for n in &o.subtables {
             h.u64(*n as u64);
         }
@@ -593,6 +674,18 @@ pub fn run_all(run: &Run) {
         }
     }
     run.observe_many(&all, &nontrivial);
+    // vacuity gate of the device-slot family: its over-threshold tables must really have been split
+    // (per table kind, nearly all of them; a compile failure or violation is not counted here)
+    for (kind, name) in ["PairPos1", "PairPos2", "MarkBasePos"].iter().enumerate() {
+        run.count(&format!("public_device_slot_cases_sized_for_split[{name}]"), slot_want_split[kind]);
+        run.count(&format!("public_device_slot_cases_split[{name}]"), slot_got_split[kind]);
+        if slot_want_split[kind] > 0 && slot_got_split[kind] == 0 {
+            run.machinery_error(&format!("device-slot family: none of the {} {name} tables sized for splitting was split: the family is vacuous", slot_want_split[kind]));
+        }
+    }
+    if let Some((i, Some(o))) = results.iter().find(|(i, o)| cs[*i].fmt == 5 && cs[*i].kind == 1 && o.as_ref().map(|o| o.subtables.iter().any(|n| *n > 1)).unwrap_or(false)) {
+        run.sample(json!({"case": cs[*i].to_json(), "slots": crate::slots::masks(&cs[*i]), "subtables": o.subtables, "extension": o.extension, "len": o.len}));
+    }
     run.extra("public_refused_cases(info)", json!(refused));
     if let Some((i, Some(o))) = results.iter().find(|(_, o)| o.as_ref().map(|o| o.subtables.iter().any(|n| *n > 1)).unwrap_or(false)) {
         run.sample(json!({"case": cs[*i].to_json(), "subtables": o.subtables, "extension": o.extension, "len": o.len}));
